@@ -1,6 +1,7 @@
 """Rules added after the third round of seeded changes (general forms of what that round slipped past)."""
 import ast
 import os
+import re
 import sympy as sp
 from ..report import AnalysisError
 from .. import pyfacts as pf
@@ -2339,4 +2340,269 @@ def rule_c14_zeroguard(r):
             if key in seen:
                 continue
             seen.add(key)
+            getattr(r, status)(f, fn, construct, line, detail)
+
+
+# ---------------------------------------------------------------------------------------------------------------------
+# exported symbol names: what the generator defines is what the loaders look up (writer's and reader's tables agree)
+def _str_parts(node, env):
+    """A string-building expression as a list of ('lit', text) / ('expr', text) parts; None when the form is unknown."""
+    if isinstance(node, ast.Constant) and isinstance(node.value, str):
+        return [("lit", node.value)]
+    if isinstance(node, ast.Name) and node.id in env:
+        return env[node.id]
+    if isinstance(node, (ast.Name, ast.Attribute)):
+        return [("expr", pf.unparse(node))]
+    if isinstance(node, ast.BinOp) and isinstance(node.op, ast.Add):
+        a, b = _str_parts(node.left, env), _str_parts(node.right, env)
+        return None if a is None or b is None else a + b
+    if isinstance(node, ast.BinOp) and isinstance(node.op, ast.Mod) and isinstance(node.left, ast.Constant) and isinstance(node.left.value, str):
+        args = list(node.right.elts) if isinstance(node.right, ast.Tuple) else [node.right]
+        pieces = re.split(r"(%[sd])", node.left.value)
+        out = []
+        for pc in pieces:
+            if pc in ("%s", "%d"):
+                if not args:
+                    return None
+                sub = _str_parts(args.pop(0), env)
+                if sub is None:
+                    return None
+                out += sub
+            elif pc:
+                out.append(("lit", pc))
+        return None if args else out
+    if isinstance(node, ast.JoinedStr):
+        out = []
+        for v in node.values:
+            sub = _str_parts(v.value if isinstance(v, ast.FormattedValue) else v, env)
+            if sub is None:
+                return None
+            out += sub
+        return out
+    if isinstance(node, ast.Call) and isinstance(node.func, ast.Attribute) and node.func.attr == "join" and \
+            isinstance(node.func.value, ast.Constant) and len(node.args) == 1 and isinstance(node.args[0], (ast.Tuple, ast.List)):
+        out = []
+        for i, e in enumerate(node.args[0].elts):
+            sub = _str_parts(e, env)
+            if sub is None:
+                return None
+            if i:
+                out.append(("lit", node.func.value.value))
+            out += sub
+        return out
+    return None
+
+
+def _merge_parts(parts):
+    out = []
+    for k, t in parts:
+        if out and k == "lit" and out[-1][0] == "lit":
+            out[-1] = ("lit", out[-1][1] + t)
+        else:
+            out.append((k, t))
+    return out
+
+
+def rule_c18_symbols(r):
+    """generate._kernels writes `#define KERNEL_NAME <x>_<variant>` into the unit; the loaders (dll, OpenCL, CUDA) look the
+    entry points up under generate.kernel_name(info, variant).  Both names are string-building expressions over one
+    ModelInfo: they are reduced to part lists and compared variant by variant, with the generator's <x> resolved at the
+    _kernels call site in make_source and the loaders' variants read from their call sites."""
+    gen = pf.lib("generate")
+    F = gen.relpath
+    kn = gen.func("kernel_name")
+    kfn = gen.func("_kernels")
+    ms = gen.func("make_source")
+    # 1. the generator's names, per variant
+    kparams = [a.arg for a in kfn.args.args]
+    defined = {}
+    for n in ast.walk(kfn):
+        if isinstance(n, ast.BinOp) and isinstance(n.op, ast.Mod):
+            parts = _str_parts(n, {})
+            if parts and parts[0][0] == "lit" and parts[0][1].startswith("#define KERNEL_NAME "):
+                parts = _merge_parts([("lit", parts[0][1][len("#define KERNEL_NAME "):])] + parts[1:])
+                parts = [p for p in parts if p != ("lit", "")]
+                tail = parts[-1][1] if parts and parts[-1][0] == "lit" else ""
+                defined[tail.rsplit("_", 1)[-1]] = (parts, n.lineno)
+    if len(defined) < 3:
+        raise AnalysisError("_kernels: fewer than three `#define KERNEL_NAME` lines found (%s)" % sorted(defined))
+    calls = [c for c in ast.walk(ms) if isinstance(c, ast.Call) and (pf.call_name(c) or "") == "_kernels"]
+    if len(calls) != 1:
+        raise AnalysisError("make_source: expected one call of _kernels, found %d" % len(calls))
+    bound = {}
+    for i, a in enumerate(calls[0].args):
+        bound[kparams[i]] = a
+    for k in calls[0].keywords:
+        bound[k.arg] = k.value
+    info_param = ms.args.args[0].arg
+    kn_info, kn_var = kn.args.args[0].arg, kn.args.args[1].arg
+    rets = [s for s in ast.walk(kn) if isinstance(s, ast.Return)]
+    if len(rets) != 1:
+        raise AnalysisError("kernel_name: expected a single return")
+    # 2. the loaders' variants
+    wanted = {}
+    for modname in ("kerneldll", "kernelcl", "kernelcuda"):
+        mod = pf.lib(modname)
+        n_sites = 0
+        for c in ast.walk(mod.tree):
+            if isinstance(c, ast.Call) and (pf.call_name(c) or "").endswith("kernel_name") and len(c.args) == 2:
+                n_sites += 1
+                comp = mod.parents.get(c)
+                variants = None
+                while comp is not None and not isinstance(comp, ast.stmt):
+                    if isinstance(comp, (ast.ListComp, ast.GeneratorExp)) and isinstance(c.args[1], ast.Name):
+                        for g in comp.generators:
+                            if isinstance(g.target, ast.Name) and g.target.id == c.args[1].id:
+                                it = g.iter
+                                if isinstance(it, ast.Name):
+                                    it_name = it.id
+                                    fn_ = mod.parents.get(comp)
+                                    while fn_ is not None and not isinstance(fn_, ast.FunctionDef):
+                                        fn_ = mod.parents.get(fn_)
+                                    for st in ast.walk(fn_):
+                                        if isinstance(st, ast.Assign) and any(isinstance(t, ast.Name) and t.id == it_name for t in st.targets):
+                                            it = st.value
+                                if isinstance(it, (ast.Tuple, ast.List)) and all(isinstance(e, ast.Constant) for e in it.elts):
+                                    variants = [e.value for e in it.elts]
+                    comp = mod.parents.get(comp)
+                if isinstance(c.args[1], ast.Constant):
+                    variants = [c.args[1].value]
+                if variants is None:
+                    raise AnalysisError("%s:%d variants passed to kernel_name not literal" % (mod.relpath, c.lineno))
+                for v in variants:
+                    wanted.setdefault(v, []).append((mod.relpath, c.lineno))
+        if not n_sites:
+            raise AnalysisError("%s: no call of generate.kernel_name" % mod.relpath)
+    # 3. compare
+    for v, sites in sorted(wanted.items()):
+        looked = _str_parts(rets[0].value, {kn_var: [("lit", v)]})
+        if looked is None:
+            raise AnalysisError("kernel_name: return expression is not a string-building form")
+        looked = _merge_parts([(k, re.sub(r"^%s\b" % re.escape(kn_info), "<info>", t) if k == "expr" else t) for k, t in looked])
+        if v not in defined:
+            r.violation(sites[0][0], "load", "kernel_name(info, %r)" % v, sites[0][1], "the generator defines no `%s` entry point (it defines %s)"
+                        % (v, sorted(defined)))
+            continue
+        parts, line = defined[v]
+        made = []
+        for k, t in parts:
+            if k == "expr" and t in bound:
+                sub = _str_parts(bound[t], {})
+                if sub is None:
+                    raise AnalysisError("make_source: argument %s of _kernels is not a name/attribute/string form" % t)
+                made += [(k2, re.sub(r"^%s\b" % re.escape(info_param), "<info>", t2) if k2 == "expr" else t2) for k2, t2 in sub]
+            else:
+                made.append((k, t))
+        made = _merge_parts(made)
+        r.check(made == looked, F, "_kernels/kernel_name", "entry point %s" % v, line,
+                "generator defines %s ; loaders (%s) look up %s -- the names must be built the same way from the same ModelInfo field"
+                % (made, ", ".join("%s:%d" % s for s in sites), looked))
+
+
+# --------------------------------------------------------------------------------------------- order selection is symmetric
+def ordersel_unit(unit, extra):
+    """Worker: a helper that puts its inputs into an array and selects smallest / middle / largest by comparisons must give
+    the same value whichever input holds which rank.  The array elements are abstracted to symbols X0..Xn-1 and the helper
+    is interpreted once per strict ordering of them (n! orderings; comparisons between elements and their Max/Min decide
+    themselves from the ordering, loops with a literal bound are unrolled, any other branch is enumerated both ways); after
+    renaming each element to its rank the set of (branch conditions -> result) must be the same for every ordering.
+    Ties are not covered (the abstraction is strict orderings)."""
+    import itertools
+    from ..nf import CInterp, enumerate_paths
+    from ..cfront import walk
+    out = []
+    for fname, fn in sorted(unit.functions.items()):
+        body = unit.body(fn)
+        if body is None:
+            continue
+        ff, ll = unit.where(fn)
+        if "/models/" not in (ff or "") or "/lib/" in (ff or ""):
+            continue
+        arrs = []
+        for n in walk(body):
+            if n.get("kind") == "VarDecl" and "[" in n.get("type", {}).get("qualType", ""):
+                init = [x for x in n.get("inner", []) if x.get("kind") == "InitListExpr"]
+                if init and 3 <= len(init[0].get("inner", [])) <= 4:
+                    arrs.append((n["name"], len(init[0]["inner"])))
+        if len(arrs) != 1:
+            continue
+        arr, n_el = arrs[0]
+        compares = [n for n in walk(body) if n.get("kind") == "IfStmt" and (arr + "[") in c_text_(n["inner"][0])]
+        if not compares:
+            continue
+        params = [p["name"] for p in unit.params(fn)]
+        X = [sp.Symbol("X%d" % i, positive=True) for i in range(n_el)]
+        S = [sp.Symbol("S%d" % i, positive=True) for i in range(n_el)]
+        tables = {}
+        failed = None
+        for perm in itertools.permutations(range(n_el)):
+            order = {X[i]: perm[i] for i in range(n_el)}
+            ren = {X[i]: S[perm[i]] for i in range(n_el)}
+
+            def canon(e):
+                e = e.xreplace(ren)
+                def fix(t):
+                    if isinstance(t, (sp.Max, sp.Min)) and all(a in S for a in t.args):
+                        ranks = sorted(S.index(a) for a in t.args)
+                        return S[ranks[-1] if isinstance(t, sp.Max) else ranks[0]]
+                    return t
+                for _ in range(3):
+                    e = e.replace(lambda t: isinstance(t, (sp.Max, sp.Min)), fix)
+                return e
+
+            def run(script):
+                it = CInterp(unit.functions)
+                it.unroll = 8
+                it.abstract_arrays = {arr: X}
+                it.order = order
+                it.script = list(script)
+                v = it.call(fname, [sp.Symbol(p, positive=True) for p in params])
+                return it.trace, v
+            try:
+                paths = enumerate_paths(run, limit=16)
+            except Exception as exc:
+                failed = str(exc)[:120]
+                break
+            tab = {}
+            for trace, v in paths:
+                key = tuple((str(canon(val)), ch) for _, val, ch in trace)
+                tab[key] = str(sp.simplify(canon(v))) if v is not None else None
+            tables[perm] = tab
+        if failed:
+            out.append(("R-C14-order-select", "note", ff, "%s:%s" % (unit.name, fname), "selection over %s[%d]" % (arr, n_el), ll,
+                        "not decided: outside the interpreted fragment (%s)" % failed))
+            continue
+        ref_perm = tuple(range(n_el))
+        ref = tables[ref_perm]
+        bad = [(perm, tab) for perm, tab in sorted(tables.items()) if tab != ref]
+        if bad:
+            perm, tab = bad[0]
+            k_ = sorted(set(ref) | set(tab), key=str)
+            diff = [(k, ref.get(k), tab.get(k)) for k in k_ if ref.get(k) != tab.get(k)][0]
+            out.append(("R-C14-order-select", "violation", ff, "%s:%s" % (unit.name, fname), "selection over %s[%d]" % (arr, n_el), ll,
+                        "with the inputs ranked %s the result is %s (branch %s), with them ranked %s it is %s: the value depends on "
+                        "which argument holds which rank (%d of %d orderings differ)"
+                        % (list(ref_perm), str(diff[1])[:80], str(diff[0])[:80], list(perm), str(diff[2])[:80], len(bad), len(tables))))
+        else:
+            out.append(("R-C14-order-select", "ok", ff, "%s:%s" % (unit.name, fname), "selection over %s[%d]" % (arr, n_el), ll,
+                        "%d strict orderings x %d paths give one table of results in the ranked inputs" % (len(tables), len(ref))))
+    return out
+
+
+def c_text_(n):
+    from ..nf import c_text
+    return c_text(n)
+
+
+_ordersel_cache = None
+
+
+def rule_c14_ordersel(r):
+    global _ordersel_cache
+    if _ordersel_cache is None:
+        from .. import cfront
+        _ordersel_cache = cfront.map_units("sa.rules.extra3:ordersel_unit")
+    for unit, rows in sorted(_ordersel_cache.items()):
+        for row in rows:
+            _, status, f, fn, construct, line, detail = row
             getattr(r, status)(f, fn, construct, line, detail)
